@@ -38,7 +38,7 @@
 //!   LB <entry> <bo> <phase> <L> <present>            an array whose length field says L with <present> zero bytes of content
 //!                                                    actually there (built here: 64 MiB do not go through the line protocol);
 //!                                                    entry = vr:<sig> | up:<sig> | ut:<type>, sig/type one of ay at ab as a{yy}
-use rbverif::wirelib::{Fd, Path, Sig, Var, F64};
+use rbverif::wirelib::{ArrN, BBytes, BPath, BSig, BStr, CowA, Fd, Path, Sig, SliceR, Var, F64};
 use rbverif::{hex, unhex};
 use rustbus::message_builder::{MarshalledMessage, MarshalledMessageBody};
 use rustbus::params::{Base, Container, Param};
